@@ -111,6 +111,11 @@ func genCase(t *rapid.T) Case {
 	c.M = gen.Mesh(t, o, "m")
 	if op == "append" || op == "appendTwice" {
 		o.Topos = []modeling.Topology{c.M.Topology()}
+		if rapid.IntRange(0, 2).Draw(t, "otherWidths") == 0 {
+			// the second mesh knows some names in another width (RGBA colour, 3-component texture coordinate)
+			o.Attrs = []gen.AttrSpec{{Name: modeling.PositionAttribute, Arity: 3}, {Name: modeling.NormalAttribute, Arity: 3}, {Name: modeling.ColorAttribute, Arity: 4},
+				{Name: modeling.TexCoordAttribute, Arity: 3}, {Name: modeling.OpacityAttribute, Arity: 1}, {Name: "Custom1", Arity: 2}}
+		}
 		m2 := gen.Mesh(t, o, "m2")
 		c.M2 = &m2
 	}
